@@ -969,6 +969,8 @@ def _noncsi_light(old, s, a, result):
     yield "only-RIS-touches-the-escape-machine", implies(neg(both(plain, is_(b"c"))), parser_untouched(old, s))
     yield "RIS-resets-the-escape-machine", implies(both(plain, is_(b"c")), both(neg(s.within_escape), s.parsestate == 0, tlen(s.escbuf) == 0))
     yield "size-and-utf8-assembly-untouched", both(s.width == old.width, s.height == old.height, psame("utf8_eat_bytes", s.utf8_eat_bytes, old.utf8_eat_bytes), psame("utf8_buffer", s.utf8_buffer, old.utf8_buffer))
+    known = either(False, *[is_(bytes([c])) for c in b"MDcEHZ78"])
+    yield "anything-else-is-ignored", implies(both(plain, neg(known)), pframe(old, s))
 
 
 @contract(VT + "TermCanvas.parse_noncsi", property="C15")
@@ -1005,8 +1007,6 @@ class parse_noncsi:
         yield "ESC-8-restores-the-saved-cursor", implies(both(plain, is_(b"8")), both(
             implies(neg(opt_isnone(old.saved_cursor)), both(G.cursor_is(s, m8.term_cursor), opt_eq(s.cursor, m8.cursor))),
             implies(opt_isnone(old.saved_cursor), pframe(old, s)), pframe(old, s, *CURSOR_FIELDS, "attrspec", "charset")))
-        known = either(False, *[is_(bytes([c])) for c in b"MDcEHZ78"])
-        yield "anything-else-is-ignored", implies(both(plain, neg(known)), pframe(old, s))
 
     ensures_callee = staticmethod(_noncsi_light)
 
@@ -1179,3 +1179,326 @@ class parse_csi:
             yield f"CSI-{key.decode()}/widget-calls", widget_calls_are(old, calls)
 
     ensures_callee = staticmethod(lambda old, s, a, result: _csi_light(old, s, a, result))
+
+
+ESCAPE_MODS = tuple(dict.fromkeys((*NONCSI_MODS, *CSI_MODS)))
+DIGITS_SEMI = b"0123456789;"
+INTERMEDIATES = (b"%", b"#", b"(", b")")
+
+
+def tcat(a, b):
+    return SConcat(as_text(a), as_text(b))
+
+
+def last_of(t):
+    t = as_text(t)
+    n = t.length
+    return t.slice(imax(n - 1, 0), n)
+
+
+def _escape_cases(old, a):
+    """The escape state machine's reaction to one character, as conditions over the state at entry:
+    which of the `collecting` transitions applies (the sequence goes on), else the sequence ends."""
+    p, e, c = old.parsestate, as_text(old.escbuf), a.char
+    n = e.length
+    is_key = either(False, *[beq(c, k) for k in CSI_KEYS])
+    csi_param = both(p == 1, neg(is_key), either(TO.in_const(c, DIGITS_SEMI), both(n == 0, beq(c, b"?"))))
+    osc_start = both(p == 0, beq(c, b"]"))
+    osc_end = either(beq(c, b"\a"), text_eq(tcat(last_of(e), c), b"\x1b\\"), both(TO.text_startswith(e, b"P"), n == 8), both(n == 0, beq(c, b"R")))
+    osc_more = both(p == 2, neg(osc_end))
+    csi_start = both(p == 0, beq(c, b"["))
+    inter = both(p == 0, either(False, *[beq(c, k) for k in INTERMEDIATES]))
+    return dict(is_key=is_key, csi_param=csi_param, osc_start=osc_start, osc_more=osc_more, csi_start=csi_start, inter=inter,
+                goes_on=either(csi_param, osc_start, osc_more, csi_start, inter))
+
+
+def _escape_light(old, s, a, result):
+    k = _escape_cases(old, a)
+    e, c = as_text(old.escbuf), a.char
+    yield "keeps-the-parser-invariant", PI(s)
+    yield "a-sequence-that-goes-on-changes-only-the-buffer-and-the-state", implies(k["goes_on"], both(s.within_escape == old.within_escape, pframe(old, s, "escbuf", "parsestate")))
+    yield "CSI-parameter-bytes-are-collected", implies(k["csi_param"], both(s.parsestate == 1, bytes_same(s.escbuf, tcat(e, c))))
+    yield "OSC-string-bytes-are-collected", implies(k["osc_more"], both(s.parsestate == 2, bytes_same(s.escbuf, tcat(e, c))))
+    yield "ESC-]-starts-an-OSC-string", implies(k["osc_start"], both(s.parsestate == 2, tlen(s.escbuf) == 0))
+    yield "ESC-[-starts-a-control-sequence", implies(k["csi_start"], both(s.parsestate == 1, tlen(s.escbuf) == 0))
+    yield "an-intermediate-character-is-remembered", implies(k["inter"], both(s.parsestate == 3, bytes_same(s.escbuf, c)))
+    yield "otherwise-the-sequence-ends-in-ground-state", implies(neg(k["goes_on"]), both(neg(s.within_escape), s.parsestate == 0, tlen(s.escbuf) == 0))
+    yield "size-and-utf8-assembly-untouched", both(s.width == old.width, s.height == old.height, psame("utf8_eat_bytes", s.utf8_eat_bytes, old.utf8_eat_bytes), psame("utf8_buffer", s.utf8_buffer, old.utf8_buffer))
+
+
+@contract(VT + "TermCanvas.parse_escape", property="C15")
+class parse_escape:
+    self_shape = PTERM
+    params = dict(char=BYTES)
+    modifies = ESCAPE_MODS
+    invariant = staticmethod(PI)
+    replayable = False
+    independent_posts = True
+
+    def ensures(old, s, a, result):
+        yield from _escape_light(old, s, a, result)
+        k = _escape_cases(old, a)
+        p = old.parsestate
+        canvas = pframe(old, s, "escbuf", "parsestate", "within_escape")
+        yield "an-OSC-string-never-touches-the-canvas", implies(p == 2, canvas)
+        yield "an-aborted-control-sequence-never-touches-the-canvas", implies(both(p == 1, neg(k["is_key"])), canvas)
+        plain_finals = either(False, *[beq(a.char, bytes([x])) for x in b"cDEHMZ78"])
+        yield "an-unknown-escape-never-touches-the-canvas", implies(both(p == 0, neg(k["goes_on"]), neg(plain_finals)), canvas)
+
+    ensures_callee = staticmethod(_escape_light)
+
+
+# ---- one character
+
+
+def bytes_individual(t):
+    """The individual of the opaque kind `Bytes` (the character component of a grid cell in C15_vterm) that a bytes
+    value of this file denotes: a constant for a Python bytes constant, otherwise ONE arbitrary individual per text
+    object (nothing is assumed about it: sound for any content; the same text object always denotes the same cell
+    character, which is what the clauses about `push_cursor` need)."""
+    if isinstance(t, bytes):
+        return t
+    ind = t.__dict__.get("_individual") if hasattr(t, "__dict__") else None
+    if ind is None:
+        st = cur()
+        ind = SOpaque("Bytes", z3.Const(st.fresh_name("charbytes"), G.opaque_sort("Bytes")), {"lit": (bytes,)})
+        t.__dict__["_individual"] = ind
+    return ind
+
+
+class _PushCursorCallee:
+    """Call-site adapter: TermCanvas.push_cursor's contract (C15_vterm) takes the character as an individual of the
+    opaque kind Bytes; the parser hands it a bytes text."""
+
+    def apply(self, ip, st, f, args, kwargs, site=None, check_pre=True):
+        args = list(args)
+        for j in range(1, len(args)):
+            if getattr(args[j], "is_text", False) or isinstance(args[j], bytes):
+                args[j] = bytes_individual(args[j])
+        return G.push_cursor.apply(ip, st, f, args, kwargs, site, check_pre)
+
+
+def _pc_cases(old, c):
+    """Which branch of process_char a character takes, as mutually exclusive conditions over the state at entry
+    (C0 controls act only outside display-controls mode; ESC and BEL are data inside an OSC string)."""
+    ctl, osc = neg(old.modes.display_ctrl), old.parsestate == 2
+    raw = [("esc", both(beq(c, b"\x1b"), neg(osc))), ("cr", both(ctl, beq(c, b"\r"))), ("si", both(ctl, beq(c, b"\x0f"))), ("so", both(ctl, beq(c, b"\x0e"))),
+           ("lf", both(ctl, TO.in_const(c, b"\n\v\f"))), ("tab", both(ctl, beq(c, b"\t"))), ("bs", both(ctl, beq(c, b"\b"))), ("bel", both(ctl, beq(c, b"\a"), neg(osc))),
+           ("can", both(ctl, TO.in_const(c, b"\x18\x1a"))), ("nul", both(ctl, TO.in_const(c, b"\x00\x7f"))), ("seq", old.within_escape), ("csi", both(ctl, beq(c, b"\x9b")))]
+    out, before = {}, True
+    for name, cond in raw:
+        out[name] = both(before, cond)
+        before = both(before, neg(cond))
+    out["print"] = before
+    return out
+
+
+def _pc_light(old, s, a, result):
+    yield "keeps-the-parser-invariant", PI(s)
+    yield "size-and-utf8-assembly-untouched", both(s.width == old.width, s.height == old.height, psame("utf8_eat_bytes", s.utf8_eat_bytes, old.utf8_eat_bytes), psame("utf8_buffer", s.utf8_buffer, old.utf8_buffer))
+
+
+PC_MODS = tuple(dict.fromkeys((*ESCAPE_MODS, *G.PUSH_FIELDS)))
+ESC_FIELDS = ("within_escape", "parsestate", "escbuf")
+
+
+@contract(VT + "TermCanvas.process_char", property="C15")
+class process_char:
+    self_shape = PTERM
+    params = dict(char=Union(BYTES, Int))
+    modifies = PC_MODS
+    invariant = staticmethod(PI)
+    replayable = False
+    independent_posts = True
+    contract_overrides = {VT + "TermCanvas.push_cursor": _PushCursorCallee()}
+
+    def requires(s, a):
+        # an int is converted with int.to_bytes(1, ...): OverflowError outside range(256)
+        return True if getattr(a.char, "is_text", False) else both(0 <= a.char, a.char <= 255)
+
+    def ensures(old, s, a, result):
+        yield from _pc_light(old, s, a, result)
+        c = cur().ghost["exit_locals"]["char"]  # the character as bytes (an int argument was converted)
+        if not getattr(a.char, "is_text", False):
+            yield "an-int-is-the-byte-of-that-value", both(tlen(c) == 1, tget(c, 0) == a.char)
+        k = _pc_cases(old, c)
+        x, y = old.term_cursor
+        # (one case per path: the `if`s below are decided by the path condition of the branch the body took)
+        if k["esc"]:
+            yield "ESC-opens-an-escape-sequence", both(s.within_escape, pframe(old, s, "within_escape"))
+        elif k["cr"]:
+            yield "CR-returns-the-carriage", _state_is(old, s, G.M_cr(old), G.carriage_return.modifies)
+        elif either(k["si"], k["so"]):
+            yield "SI-and-SO-activate-G0-and-G1", both(implies(k["si"], s.charset.active == 0), implies(k["so"], s.charset.active == 1), pframe(old, s, "charset"))
+        elif k["lf"]:
+            lf = G.M_lf(old, False)
+            if old.modes.lfnl:
+                yield "in-new-line-mode-a-line-feed-also-returns-the-carriage", _state_is(old, s, G.M_cr(lf), G.LF_FIELDS)
+            else:
+                yield "LF-VT-FF-feed-a-line", _state_is(old, s, lf, G.LF_FIELDS)
+        elif k["tab"]:
+            yield "HT-moves-right-within-the-line", both(x <= s.term_cursor[0], s.term_cursor[0] <= old.width - 1, implies(x < old.width - 1, x < s.term_cursor[0]),
+                                                         either(s.term_cursor[0] == old.width - 1, tabstop_at(old, s.term_cursor[0])), pframe(old, s, *CURSOR_FIELDS, "is_rotten_cursor"))
+        elif k["bs"]:
+            yield "BS-moves-one-column-left-and-stops-at-the-margin", both(
+                implies(x > 0, _state_is(old, s, G.M_set_cursor(old, x - 1, y), CURSOR_FIELDS)), implies(x <= 0, pframe(old, s)))
+        elif k["bel"]:
+            yield "BEL-rings-the-bell-and-nothing-else", both(widget_calls_are(old, [("beep", {})]), pframe(old, s))
+        elif k["can"]:
+            yield "CAN-and-SUB-abort-the-sequence", both(neg(s.within_escape), s.parsestate == 0, tlen(s.escbuf) == 0, pframe(old, s, *ESC_FIELDS))
+        elif k["nul"]:
+            yield "NUL-and-DEL-are-ignored", pframe(old, s)
+        elif k["seq"]:
+            pass  # inside an escape sequence: parse_escape's contract
+        elif k["csi"]:
+            yield "C1-CSI-opens-a-control-sequence", both(s.within_escape, s.parsestate == 1, tlen(s.escbuf) == 0, pframe(old, s, *ESC_FIELDS))
+        else:
+            yield "anything-else-is-printed-at-the-cursor", _state_is(old, s, G.M_push_cursor(old, bytes_individual(c)), G.PUSH_FIELDS)
+
+    ensures_callee = staticmethod(_pc_light)
+
+
+# ---- one byte: UTF-8 assembly
+
+from pyvc.protocol import Protocol  # noqa: E402
+
+_ENC = G.opaque_sort("Encoding")
+_ENC_EQ = z3.Function("Encoding.is", _ENC, z3.IntSort(), z3.BoolSort())
+
+
+class EncodingProtocol(Protocol):
+    """`util._target_encoding`: the name of a codec (set_encoding stores a name only after `"".encode(name)`
+    succeeded; "ascii" otherwise).  An arbitrary individual; comparing it with a str constant is an uninterpreted
+    predicate of (individual, constant)."""
+
+    kind = "Encoding"
+    methods = {}
+
+    def eq_const(self, st, obj, const):
+        if not isinstance(const, str):
+            return False
+        return mk_bool(_ENC_EQ(obj.e, z3.IntVal(V.atom_code(const))))
+
+
+PROTOCOLS["Encoding"] = EncodingProtocol()
+ENCODING = dict(_target_encoding=Opaque("Encoding"))
+
+
+def encode_replace(ip, st, recv, name, args, kwargs):
+    """Contract hook (builtins_model.call_method): `<str>.encode(<target encoding>, "replace")`.
+    ASSUMED about the runtime: for the codec named by util._target_encoding, str.encode with the "replace" error
+    handler returns bytes and does not raise (unencodable characters become b"?").  True of every text codec of the
+    standard library (cross-check `replace-encoding-never-raises` over all codecs set_encoding knows about and every
+    standard alias); NOT true of a few non-text codecs ("idna", "punycode": UnicodeError for any error handler but
+    "strict") -- an application that calls util.set_encoding() with one of those is outside this contract.
+    The result is a fresh bytes text of unknown length and content, tagged `encoded_from`."""
+    if name == "encode" and recv.kind == "str" and len(args) == 2 and not kwargs and isinstance(args[0], SOpaque) and args[0].kind == "Encoding" and args[1] == "replace":
+        t = BYTES.fresh(st, "encoded")
+        t.encoded_from = recv
+        return t
+    return NotImplemented
+
+
+def replace_encoding_xcheck():
+    import encodings.aliases
+
+    names = sorted(set(encodings.aliases.aliases.values()) | {"utf8", "ascii", "euc-jp", "euc-kr", "gb2312", "gbk", "big5", "latin-1", "cp437", "koi8-r", "utf-16", "utf-32"})
+    samples = ["a", "é", "中", "\U0001f600", "\ud800", "\x00", "a中é￿", "́"]
+    bad, n, skipped = [], 0, []
+    for name in names:
+        try:
+            "".encode(name)  # what util.set_encoding tries before it accepts a name
+        except Exception:  # noqa: BLE001
+            skipped.append(name)
+            continue
+        for smp in samples:
+            n += 1
+            try:
+                r = smp.encode(name, "replace")
+                if not isinstance(r, bytes):
+                    bad.append((name, smp, type(r).__name__))
+            except Exception as e:  # noqa: BLE001
+                bad.append((name, smp, type(e).__name__))
+    non_text = {b[0] for b in bad}
+    # the documented exceptions: codecs that are not character encodings
+    ok = non_text <= {"idna", "punycode", "undefined", "rot_13", "base64_codec", "bz2_codec", "hex_codec", "quopri_codec", "uu_codec", "zlib_codec"}
+    return "replace-encoding-never-raises", ok and n > 500, f"{n} (codec, text) pairs; codecs outside the assumption: {sorted(non_text)}; not accepted by set_encoding: {len(skipped)}"
+
+
+REGISTRY[VT + "TermCanvas.process_char"].log_event = "process_char"  # ghost: the canvas remembers which characters were processed
+
+
+def buf_text(s):
+    return as_text(s.utf8_buffer.text)
+
+
+def _ab_light(old, s, a, result):
+    yield "keeps-the-parser-invariant", PI(s)
+    yield "size-untouched", both(s.width == old.width, s.height == old.height)
+
+
+@contract(VT + "TermCanvas.addbyte", property="C15")
+class addbyte:
+    self_shape = PTERM
+    params = dict(byte=Int)
+    modifies = (*PC_MODS, "utf8_eat_bytes", "utf8_buffer")
+    invariant = staticmethod(PI)
+    replayable = False
+    independent_posts = True
+    globals_ = ENCODING
+    inline = ("urwid/util.py:get_encoding",)
+    text_method = staticmethod(encode_replace)
+    static_checks = [replace_encoding_xcheck]
+
+    def requires(s, a):
+        return both(0 <= a.byte, a.byte <= 255)
+
+    def ensures(old, s, a, result):
+        yield from _ab_light(old, s, a, result)
+        b = a.byte
+        utf8 = either(old.modes.main_charset == 2, PROTOCOLS["Encoding"].eq_const(cur(), a.g__target_encoding, "utf8"))
+        evs = new_events(old, s, "process_char")
+        pend, eat = neg(onone(old.utf8_eat_bytes)), oval(old.utf8_eat_bytes)
+        untouched = both(psame("utf8_eat_bytes", s.utf8_eat_bytes, old.utf8_eat_bytes), psame("utf8_buffer", s.utf8_buffer, old.utf8_buffer))
+        one_byte = lambda: both(len(evs) == 1, tlen(evs[0][1]) == 1, tget(evs[0][1], 0) == b) if len(evs) == 1 else False  # noqa: E731
+        if not utf8:
+            yield "outside-utf8-every-byte-is-a-character", both(one_byte(), untouched)
+        elif b >= 0xC0:
+            yield "a-lead-byte-always-starts-a-new-sequence", both(len(evs) == 0, neg(onone(s.utf8_eat_bytes)), bytes_same(s.utf8_buffer, TO.bytes_of_ints(cur(), [b])), pframe(old, s, "utf8_eat_bytes", "utf8_buffer"))
+            yield "it-expects-as-many-continuation-bytes-as-its-high-bits-say", both(implies(b <= 0xDF, oval(s.utf8_eat_bytes) == 1), implies(both(0xE0 <= b, b <= 0xEF), oval(s.utf8_eat_bytes) == 2),
+                                                                                   implies(both(0xF0 <= b, b <= 0xF7), oval(s.utf8_eat_bytes) == 3))
+        elif both(b >= 0x80, pend, eat > 1):
+            yield "a-continuation-byte-is-collected", both(len(evs) == 0, neg(onone(s.utf8_eat_bytes)), oval(s.utf8_eat_bytes) == eat - 1,
+                                                           bytes_same(s.utf8_buffer, tcat(buf_text(old), TO.bytes_of_ints(cur(), [b]))), pframe(old, s, "utf8_eat_bytes", "utf8_buffer"))
+        elif both(b >= 0x80, pend):
+            yield "the-last-continuation-byte-ends-the-sequence", both(onone(s.utf8_eat_bytes), len(evs) <= 1)
+            if len(evs) == 1:
+                enc = evs[0][1]
+                dec = getattr(enc, "encoded_from", None)
+                src = getattr(dec, "decoded_from", None)
+                yield "the-character-is-the-lenient-decoding-of-the-collected-bytes-in-the-target-encoding", both(
+                    dec is not None, src is not None, getattr(dec, "decode_errors", None) == "ignore", src is not None and bytes_same(src, tcat(buf_text(old), TO.bytes_of_ints(cur(), [b]))))
+            else:
+                yield "an-undecodable-sequence-is-dropped", pframe(old, s, "utf8_eat_bytes")
+        else:
+            # an ASCII byte, or a continuation byte out of place: a pending sequence is abandoned (resynchronisation)
+            yield "any-other-byte-abandons-a-pending-sequence-and-is-a-character", both(onone(s.utf8_eat_bytes), one_byte(), psame("utf8_buffer", s.utf8_buffer, old.utf8_buffer))
+
+    ensures_callee = staticmethod(_ab_light)
+
+
+@contract(VT + "TermCanvas.addstr", property="C15")
+class addstr:
+    self_shape = PTERM
+    params = dict(data=Union(BYTES, ListOf(Int(0, 255))))
+    modifies = addbyte.modifies
+    invariant = staticmethod(PI)
+    replayable = False
+    globals_ = ENCODING
+    loops = {0: Loop(modifies=tuple("self." + k for k in addbyte.modifies), invariant=lambda v: both(PI(v.self), v.self.width == v.old.self.width, v.self.height == v.old.self.height, implies(v.i_ == 0, pframe(v.old.self, v.self))))}
+
+    def ensures(old, s, a, result):
+        yield "keeps-the-parser-invariant", PI(s)
+        yield "size-untouched", both(s.width == old.width, s.height == old.height)
+        n = tlen(a.data) if getattr(a.data, "is_text", False) else Q.seq_len(a.data)
+        yield "nothing-written-nothing-changes", implies(n == 0, pframe(old, s))
